@@ -30,4 +30,7 @@ cScalars == {VS("x"), VS("X")}      \* (values that differ in case only: a strin
 cConts == {EmptyMap, EmptyList}
 cNewVals == {VS("N")}
 cNewVals2 == {VS("N"), VM("n" :> VS("N")), VL(<<VS("N")>>)}
+\* placeholder alphabets (check.py SUBST)
+cScalarsLong == {VS("x"), VS("^")}
+cNewValsLong == {VS("N^"), VM("~" :> VS("N"))}      \* (a new value is not one of the old ones: the frame counts replaced values by their difference)
 =============================================================================
